@@ -89,6 +89,13 @@ Section FISTA.
     jL (fr_it r) = fp_Lmax P /\ jgam (fr_it r) = fp_Lgamma P / fp_Lmax P.
   Proof. exact (rec_ok_fixed psi_grad psi_yhat grad_L grad_psi lb ub l1 stop_req time_up P x_in y_in Σ errz_in bt_fuel). Qed.
 
+  (* fixed-step mode with a criterion that does not need ∇ψ(x̂) (as the code is): EVERY progress callback — the final one included — is
+     shown a ŷ buffer that has never been written (model: []; C++: uninitialised memory) and ψ_hat = NaN, because ψ(x̂)/ŷ are evaluated
+     only in the exit block, after the last callback; the written-back y IS eval_ψ's ŷ at the returned x (FISTA_exit) *)
+  Theorem FISTA_fixed_step_callbacks_without_multipliers : forall r : fcbrec (T:=R), Rec_ok r -> fixed = true -> need = false ->
+    jyh (fr_it r) = [] /\ jpsih (fr_it r) = nnan.
+  Proof. exact (rec_ok_late psi_grad psi_yhat grad_L grad_psi lb ub l1 stop_req time_up P x_in y_in Σ errz_in bt_fuel). Qed.
+
   (* momentum: with the recurrence GENERATED from the source, t_0 = 1, t_k >= (k+2)/2 and t_{k+1} (t_{k+1} - 1) = t_k² along the records
      (this is the theorem that stops compiling when the recurrence in fista.tpp loses the square, cf. fix 0f469d161) *)
   Theorem FISTA_momentum : forall fuel o, run fuel = FDone o ->
@@ -172,6 +179,7 @@ Print Assumptions FISTA_gamma_nonincreasing.
 Print Assumptions FISTA_qub_or_Lmax.
 Print Assumptions FISTA_records.
 Print Assumptions FISTA_fixed_step_records.
+Print Assumptions FISTA_fixed_step_callbacks_without_multipliers.
 Print Assumptions FISTA_momentum.
 Print Assumptions FISTA_status_clauses.
 Print Assumptions FISTA_exit.
